@@ -646,4 +646,28 @@ theorem legacy_close_deadlock_witness :
   refine ⟨_, rfl, rfl, ?_⟩
   intro l; cases l <;> rfl
 
+/-! ### Round 8: every handled token leaves a window of at least the initial delay -/
+
+/-- The history-based quiet window the harness monitors (`signal-before-window-end`): whatever the
+state before, once the run loop has handled a token at clock `t = s.now` without hitting the cap,
+a timer is armed whose end is at least `t + InitialDelay` (the token opened a window of the initial
+delay, or moved the end of the open one to `t + min(max, initial·2^k) ≥ t + initial`). Together
+with `burst_no_signal_inside` / `not_idle_means_recent_token`: nothing is signalled before that. -/
+theorem token_leaves_quiet_window {cfg : Config} (hv : cfg.valid) (hsmall : cfg.initial < 2 ^ 53)
+    {s s' : State} (h : Reach cfg s) (hst : step cfg s .deliver = some s')
+    (hnc : capReached cfg s = false) (ho : s'.ovf = false) :
+    ∃ d, s'.timer = some d ∧ s.now + cfg.initial ≤ d := by
+  have hw := window_steps hst
+  cases htm : s.timer with
+  | none => exact ⟨_, (hw.1 htm).2, Nat.le_refl _⟩
+  | some d0 =>
+    have h2 := hw.2 (by simp [htm]) hnc
+    have hcur := window_growth_exact hv hsmall (Reach.step .deliver h hst) ho
+    refine ⟨_, h2.2, ?_⟩
+    have h1 : cfg.initial ≤ cfg.initial * 2 ^ s'.wk :=
+      Nat.le_mul_of_pos_right _ (Nat.pow_pos (by decide))
+    have h3 : cfg.initial ≤ s'.cur := by
+      rw [hcur]; exact Nat.le_min.mpr ⟨hv.2.1, h1⟩
+    omega
+
 end C09
